@@ -18,7 +18,7 @@ CLAIMED = {
         "of Agg(TrueJac), TrueJac defined by forward mode. Scenarios exported by TLC (content-hash sample in quick, one "
         "third in thorough) are replayed into the real backward with exact equality in float32/float64 over assorted shapes "
         "and argument presentations, with every aggregator via the matrix/own-slice split; random larger programs are "
-        "recorded and validated by TLC (TraceBackward). Presentations: inputs as list/tuple/iterator/generator/dict view, tensors also as the list of their scalars, several torch realisations per abstract op; float64 precision runs (values not representable in float32) against a torch.autograd.grad twin; the recording aggregator carries a forward hook (aggregator(J) = Module.__call__); the implementation-shaped layer is bound to the code by stage traces (TraceBackwardImpl, DRIFT only). Call mode \"leafout\" of Backward.tla admits leaves requiring grad among `tensors` (explored in a run of its own); leaves and pre-existing .grad are also presented with reversed strides; a seeded fraction of the scenarios is called twice on the retained graph (expectation grad0 + 2 update) and/or with positional arguments."),
+        "recorded and validated by TLC (TraceBackward). Presentations: inputs as list/tuple/iterator/generator/dict view, tensors also as the list of their scalars, several torch realisations per abstract op; float64 precision runs (values not representable in float32) against a torch.autograd.grad twin; the recording aggregator carries a forward hook (aggregator(J) = Module.__call__); the implementation-shaped layer is bound to the code by stage traces (TraceBackwardImpl, DRIFT only). Call mode \"leafout\" of Backward.tla admits leaves requiring grad among `tensors` (explored in a run of its own); leaves and pre-existing .grad are also presented with reversed strides; a seeded fraction of the scenarios is called twice on the retained graph (expectation grad0 + 2 update) and/or with positional arguments; differentiated tensors are also presented as dense non-row-major views."),
  "C02": dict(mods="MtlBackward.tla (instantiates Backward.tla), TraceMtlBackward.tla", ref="7 C02",
    text="TLC checks (exhaustive small universe of trunks x head templates x parameter-list modes, plus simulation of a "
         "larger one) that per-task Grad/Accumulate, Stack and the instantiated Jac/Aggregate/Accumulate actions refine the "
@@ -48,7 +48,7 @@ CLAIMED = {
         "reachable avoiding excluded; tensor-level 'leaves that matter') on all programs with <= 4 tensors (5 thorough), "
         "every call, every deque order, with termination; each (program, call) is replayed as defaulted vs explicit call on "
         "the real torchjd (rejected iff the model says the default sets overlap, else identical .grad); logged real autograd "
-        "graphs of random larger programs are validated by TLC with the same actions. Every program is explored under every admissible assignment of float64 / float32 / complex128 / complex64 to its user tensors (parameters aggregated together share one element type), .grad compared exactly."),
+        "graphs of random larger programs are validated by TLC with the same actions. Every program is explored under every admissible assignment of float64 / float32 / complex128 / complex64 to its user tensors (parameters aggregated together share one element type), .grad compared exactly. Deep graphs (24 and 60 stacked diamonds): the defaulted call must return (LeafWalk!BoundedWork, WalkEnds) and equal the explicit one."),
  "C13": dict(mods="GraphLife.tla (instantiates JacChunks.tla), TraceGraphLife.tla", ref="7 C13",
    text="TLC checks on a family of graph skeletons that torchjd's sweep sequences refine a single torch.autograd sweep "
         "w.r.t. per-node freed state for all histories of <= 3 calls (no self-inflicted failure, frees exactly what the "
@@ -59,7 +59,7 @@ CLAIMED = {
         "and checks that the code's sequence of checks and writes never writes before a check that can still reject "
         "(NothingChanged, ChecksBeforeWrites); every scenario is executed on the real backward/mtl_backward and, if it "
         "raises, every .grad must be unchanged (value, object, memory); random programs with randomly injected faults are "
-        "recorded and validated by TLC (TraceRejection). The frozen leaf may carry a stale .grad (trained, then requires_grad_(False)): it is tracked too and must be left alone."),
+        "recorded and validated by TLC (TraceRejection). The frozen leaf may carry a stale .grad (trained, then requires_grad_(False)): it is tracked too and must be left alone. One-element losses of shape (1,) / (1,1) are non-scalar; a call that carries an enumerated fault and is carried out all the same is a violation too (FaultyIsRejected)."),
 }
 
 EXTRA = V / "tools" / "manifest_extra.json"      # entries contributed for the other properties
